@@ -10,7 +10,7 @@ use serde_json::{json, Value};
 
 use crate::{
     io::storage_fault,
-    mapgen::{gen_map, gen_shape, real_window},
+    mapgen::{gen_convert_stress, gen_map, gen_shape, real_window},
     prng::{fnv, Rng},
     runner::{guard, panic_site, Engine, Stats, Tier, Violation},
     spec::{gen_diff, gen_score, gen_state, mode_idx, mode_name, DiffSpec, ModsSpec, ScoreSpec, StateSpec, MODES},
@@ -127,6 +127,8 @@ fn gen_case(rng: &mut Rng, tier: Tier, adversarial: bool) -> PipeCase {
     let (mut content, map_mode) = if rng.chance(0.35) {
         let idx = rng.usize(4);
         (real_window(rng, idx, max_n).render().into_bytes(), idx)
+    } else if rng.chance(0.25) {
+        (gen_convert_stress(rng, max_n).render().into_bytes(), 0)
     } else {
         let mode = rng.weighted(&[46, 18, 18, 18]);
         let sh = gen_shape(rng, mode, max_n);
